@@ -242,6 +242,9 @@ def run(case, j):
         p0 = int(pr.integers(1, 4))
         X0 = pr.normal(size=(n0, m0)) * 10.0 ** pr.uniform(-2, 2)
         Y0 = pr.normal(size=(n0, p0)) if pr.random() < 0.7 else pr.normal(size=n0)
+        if case["pseed"] % 2 == 0:  # every other time the earlier data are a sibling of the judged ones: same shapes, column means and norms
+            X0 = forms.sibling(X, pr.normal(size=X.shape))
+            Y0 = forms.sibling(Y, pr.normal(size=Y.shape)).reshape(np.shape(Yin))
         est = Ridge2FoldCV(
             alphas=np.sort(10.0 ** pr.uniform(-6, -0.5, size=int(pr.integers(1, 9)))),
             alpha_type="relative" if atype == "absolute" else "absolute",
